@@ -294,6 +294,9 @@ def r5_missing_shortcut(ctx):
 
 from .c20 import r2_private_mutator_call_sites as _parser_call_sites_own_their_text   # the decimal parser overwrites signs / dots in place: every caller hands it a copy
 
+from ..through_time import make_rule as _mk_tt
+_through_time = _mk_tt("C18")
+
 RULES = [
     ("C18-R1", r1_formatting),
     ("C18-R2", r2_parsing),
@@ -301,4 +304,5 @@ RULES = [
     ("C18-R4", r4_float_and_list_formatting),
     ("C18-R5", r5_missing_shortcut),
     ("C18-R6", _parser_call_sites_own_their_text),
+    ("C18-T1", _through_time),
 ]
